@@ -15,6 +15,13 @@ computed from the pre-state on plain lists (>> keeps old cells and appends, << a
 column, slices / masks apply to every column, T transposes and T.T gives back the cells, cell / row /
 column / attribute assignment change exactly the addressed cells).  A step that raises is a
 rejection (never a failure); the invariants must still hold afterwards.
+
+Late alphabet (quick tier: only as the LAST step of a history; thorough: anywhere): `<<` rows whose cells
+are falsy / empty values ('' b'' None 0 0.0 False [] (), alone and mixed with truthy cells: the row must
+land in EVERY column) and attribute / indexed-attribute assignment of UNSIZED iterables (generator, map,
+zip, iter(list)) of the right and of the wrong length.  For every attribute assignment whose value has
+the wrong length the step must raise and leave cells and names as they were; an unsized value of the
+right length must be accepted like the list form.
 """
 from harness import *  # noqa
 
@@ -155,7 +162,95 @@ W = [
 ]
 
 
-def _steps(names, k, core):
+def _lsh(cell):
+    return lambda m, nm, NR, NC: [c + [cell] for c in m] if NC else None
+
+
+def _lsh_first(first, rest):
+    return lambda m, nm, NR, NC: [c + [first if i == 0 else rest] for i, c in enumerate(m)] if NC else None
+
+
+def _lsh_last(rest, last):
+    return lambda m, nm, NR, NC: [c + [last if i == NC - 1 else rest] for i, c in enumerate(m)] if NC else None
+
+
+D_LATE = [
+    ('Table.lshift-row-falsy-str', "{x} << [''] * NC", 0, _lsh('')),
+    ('Table.lshift-row-falsy-bytes', "{x} << [b''] * NC", 0, _lsh(b'')),
+    ('Table.lshift-row-falsy-none', '{x} << [None] * NC', 0, _lsh(None)),
+    ('Table.lshift-row-falsy-zero', '{x} << [0] * NC', 0, _lsh(0)),
+    ('Table.lshift-row-falsy-zero-float', '{x} << [0.0] * NC', 0, _lsh(0.0)),
+    ('Table.lshift-row-falsy-false', '{x} << [False] * NC', 0, _lsh(False)),
+    ('Table.lshift-row-falsy-first', "{x} << [''] + [8] * (NC - 1)", 0, _lsh_first('', 8)),
+    ('Table.lshift-row-falsy-rest', '{x} << [8] + [0] * (NC - 1)', 0, _lsh_first(8, 0)),
+    ('Table.lshift-row-falsy-last-none', '{x} << [8] * (NC - 1) + [None]', 0, _lsh_last(8, None)),
+    ('Table.lshift-row-tuple', "{x} << tuple([''] * NC)", 0, _lsh('')),
+    ('Table.lshift-row-generator', '{x} << (0 for _ in range(NC))', 0, None),           # unsized row: cells not decided here
+    # an empty list / tuple as a cell: the statement does not say whether it is a cell or an empty chunk of rows;
+    # whatever comes out must be rectangular (invariants only)
+    ('Table.lshift-row-empty-list-cells', '{x} << [[]] * NC', 0, None),
+    ('Table.lshift-row-empty-list-cell-last', '{x} << [8] * (NC - 1) + [[]]', 0, None),
+    ('Table.lshift-row-empty-tuple-cell-first', '{x} << [()] + [8] * (NC - 1)', 0, None),
+]
+
+
+def _seta(vals):
+    return lambda m, nm, NR, NC: _setcol(m, nm, 'a', vals(NR)) if nm.count('a') == 1 else None
+
+
+def _seta0(vals):
+    def f(m, nm, NR, NC):
+        if not nm or nm[0] != 'a' or len(vals(NR)) != NR:
+            return None
+        m = [list(col) for col in m]
+        m[0] = list(vals(NR))
+        return m
+    return f
+
+
+def _n(k, v=5):
+    return lambda NR: [v] * max(NR + k, 0)
+
+
+W_LATE = [
+    ('Table.setattr-generator', '{x}.a = (5 for _ in range(NR))', 0, _seta(_n(0))),
+    ('Table.setattr-generator-long', '{x}.a = (5 for _ in range(NR + 1))', 0, _seta(_n(1))),
+    ('Table.setattr-generator-short', '{x}.a = (5 for _ in range(NR - 1))', 0, _seta(_n(-1))),
+    ('Table.setattr-map', '{x}.a = map(int, [5] * NR)', 0, _seta(_n(0))),
+    ('Table.setattr-map-long', '{x}.a = map(int, [5] * (NR + 1))', 0, _seta(_n(1))),
+    ('Table.setattr-zip', '{x}.a = zip([5] * NR)', 0, _seta(_n(0, (5,)))),
+    ('Table.setattr-zip-long', '{x}.a = zip([5] * (NR + 1))', 0, _seta(_n(1, (5,)))),
+    ('Table.setattr-iter', '{x}.a = iter([5] * NR)', 0, _seta(_n(0))),
+    ('Table.setattr-iter-long', '{x}.a = iter([5] * (NR + 1))', 0, _seta(_n(1))),
+    ('Table.setattr-iter-short', '{x}.a = iter([5] * (NR - 1))', 0, _seta(_n(-1))),
+    ('Table.setattr-iter-empty', '{x}.a = iter([])', 0, _seta(lambda NR: [])),
+    ('Table.setattr-indexed-generator', '{x}.a__0 = (5 for _ in range(NR))', 0, _seta0(_n(0))),
+    ('Table.setattr-indexed-generator-long', '{x}.a__0 = (5 for _ in range(NR + 1))', 0, _seta0(_n(1))),
+    ('Table.setattr-indexed-generator-short', '{x}.a__0 = (5 for _ in range(NR - 1))', 0, _seta0(_n(-1))),
+    ('Table.setattr-indexed-iter', '{x}.a__0 = iter([5] * NR)', 0, _seta0(_n(0))),
+    ('Table.setattr-indexed-iter-long', '{x}.a__0 = iter([5] * (NR + 1))', 0, _seta0(_n(1))),
+    ('Table.setattr-indexed-map-long', '{x}.a__0 = map(int, [5] * (NR + 1))', 0, _seta0(_n(1))),
+    ('Table.setattr-indexed-zip-long', '{x}.a__0 = zip([5] * (NR + 1))', 0, _seta0(_n(1))),
+]
+# length of the value handed to an attribute assignment (as a function of NR); != NR means: must be rejected
+SETATTR_LEN = {
+    'Table.setattr-list': lambda NR: NR, 'Table.setattr-list-long': lambda NR: NR + 1,
+    'Table.setattr-list-short': lambda NR: max(NR - 1, 0), 'Table.setattr-vector': lambda NR: NR,
+    'Table.setattr-vector-long': lambda NR: NR + 1, 'Table.setattr-vector-empty': lambda NR: 0,
+    'Table.setattr-indexed': lambda NR: NR, 'Table.setattr-indexed-long': lambda NR: NR + 1,
+    'Table.setattr-iter-empty': lambda NR: 0,
+}
+for _op, _t, _c, _e in W_LATE:
+    if _op not in SETATTR_LEN:
+        SETATTR_LEN[_op] = (lambda k: (lambda NR: max(NR + k, 0)))(1 if _op.endswith('-long') else -1 if _op.endswith('-short') else 0)
+UNSIZED = {o[0] for o in W_LATE}
+# variants of one call site / one input class share a key
+KEY_OP = {o[0]: ('Table.setattr-indexed-unsized' if 'indexed' in o[0] else 'Table.setattr-unsized') for o in W_LATE}
+KEY_OP.update({o[0]: 'Table.lshift-row-falsy' for o in D_LATE if '-falsy-' in o[0]})
+KEY_OP.update({o[0]: 'Table.lshift-row-empty-cell' for o in D_LATE if '-empty-' in o[0]})
+
+
+def _steps(names, k, core, late=False):
     R = f'r{k}'
     out = []
     for x in names:
@@ -165,15 +260,31 @@ def _steps(names, k, core):
         for op, tmpl, c, exp in W:
             if c or not core:
                 out.append({'op': op, 'src': tmpl.format(x=x), 'tgt': x})
+        if late == 'full' or (late == 'l2' and x == names[-1]):
+            for op, tmpl, c, exp in D_LATE:
+                if late == 'full' or op in LATE_L2:
+                    out.append({'op': op, 'src': f'{R} = ' + tmpl.format(x=x), 'tgt': x, 'res': R})
+            for op, tmpl, c, exp in W_LATE:
+                if late == 'full' or op in LATE_L2:
+                    out.append({'op': op, 'src': tmpl.format(x=x), 'tgt': x})
     return out
 
 
-EXPECT = {op: exp for op, tmpl, c, exp in D + W}
+# quick tier, histories of length 2: one representative per input class, applied to the newest table only
+LATE_L2 = {'Table.lshift-row-falsy-str', 'Table.lshift-row-falsy-none', 'Table.lshift-row-falsy-rest',
+           'Table.lshift-row-empty-list-cell-last', 'Table.setattr-generator', 'Table.setattr-generator-long',
+           'Table.setattr-iter-long', 'Table.setattr-zip', 'Table.setattr-indexed-generator-long', 'Table.setattr-indexed-iter'}
 
 
-def _histories(n, core):
+EXPECT = {op: exp for op, tmpl, c, exp in D + W + D_LATE + W_LATE}
+
+
+def _histories(n, core, late='last'):
+    """late: 'last' = the late alphabet only in the last position (histories of length >= 2: the LATE_L2 subset on
+    the newest table), 'all' = the whole late alphabet everywhere, None = never."""
     def rec(names, k, prefix):
-        for st in _steps(names, k, core):
+        mode = 'full' if late == 'all' else (('full' if n == 1 else 'l2') if late == 'last' and k == n else False)
+        for st in _steps(names, k, core, mode):
             if k == n:
                 yield prefix + [st]
             else:
@@ -184,10 +295,10 @@ def _histories(n, core):
 def cases(tier, seed):
     for r in ROOTS:
         yield {'root': r, 'hist': []}
-    plan = [(1, False, list(ROOTS)), (2, False, QUICK_L2_ROOTS)] if tier == 'quick' else \
-           [(1, False, list(ROOTS)), (2, False, list(ROOTS)), (3, True, THOROUGH_L3_ROOTS)]
-    for n, core, roots in plan:
-        for h in _histories(n, core):
+    plan = [(1, False, list(ROOTS), 'last'), (2, False, QUICK_L2_ROOTS, 'last')] if tier == 'quick' else \
+           [(1, False, list(ROOTS), 'last'), (2, False, list(ROOTS), 'all'), (3, True, THOROUGH_L3_ROOTS, 'last')]
+    for n, core, roots, late in plan:
+        for h in _histories(n, core, late):
             for r in roots:
                 yield {'root': r, 'hist': h}
 
@@ -292,6 +403,7 @@ def evaluate(case):
     done = ['t0 = ' + ROOTS[root]]
     for st in case['hist']:
         tgt, op = st['tgt'], st['op']
+        kop = KEY_OP.get(op, op)
         if tgt not in env:
             break
         x = env[tgt]
@@ -321,8 +433,28 @@ def evaluate(case):
         # invariants on every live, untainted table
         for n, o in env.items():
             if isinstance(o, Table) and n not in tainted:
-                if not check_table(o, op, hist, fails):
+                if not check_table(o, kop, hist, fails):
                     tainted.add(n)
+        if op in SETATTR_LEN and ok_pre and tgt not in tainted:
+            L = SETATTR_LEN[op](NR)
+            if L != NR:
+                # a column of the wrong length: rejected rather than stored, and nothing changes
+                post = cells(x)
+                try:
+                    names2 = list(x.column_names())
+                except Exception:
+                    names2 = None
+                if exc is None:
+                    fails.append(Fail(f'C02:{kop}:wrong-length-accepted',
+                                      f'{hist}: a value of length {L} was accepted as a column of a table with {NR} rows', 'rejected', post))
+                elif post is None or not _eq_cells(post, pre) or names2 != names:
+                    fails.append(Fail(f'C02:{kop}:rejected-but-changed',
+                                      f'{hist}: raised {type(exc).__name__} but the table changed', (names, pre), (names2, post)))
+            elif exc is not None and op in UNSIZED and NC and \
+                    ((names[0] == 'a') if 'indexed' in op else (names.count('a') == 1)):
+                fails.append(Fail(f'C02:{kop}:right-length-refused',
+                                  f'{hist}: an unsized iterable of exactly {NR} values was refused with {type(exc).__name__}: {exc} '
+                                  f'(the list form of the same assignment is accepted)', 'accepted', type(exc).__name__))
         if exc is not None or not ok_pre:
             continue
         exp = EXPECT[op]
@@ -335,6 +467,11 @@ def evaluate(case):
         if want is None:
             continue
         subject = res if 'res' in st else tgt
+        if subject is None and kop == 'Table.lshift-row-falsy':
+            # a well-formed row of NC scalar cells: it must land in every column (a cell being falsy is no reason to
+            # skip a column, which leaves unequal columns, i.e. something that is not a table)
+            fails.append(Fail(f'C02:{kop}:result-not-a-table', f'{hist}: appending a row of {NC} scalar cells did not give a table',
+                              want, 'not a Table'))
         if subject is None or subject in tainted:
             continue
         got = cells(env[subject])
@@ -342,7 +479,7 @@ def evaluate(case):
             fails.append(Fail('C02:Table.getitem-slice:empty-selection-returns-all',
                               f'{hist}: the slice selects no row but {subject} has every row', want, got))
         elif got is None or not _eq_cells(got, want):
-            fails.append(Fail(f'C02:{op}:cells', f'{hist}: cells of {subject} differ from the plain-list computation', want, got))
+            fails.append(Fail(f'C02:{kop}:cells', f'{hist}: cells of {subject} differ from the plain-list computation', want, got))
         elif op == 'Table.T':
             try:
                 back = cells(env[subject].T)
@@ -353,7 +490,7 @@ def evaluate(case):
         if 'res' in st:
             mm = _truthful(env[subject])
             if mm and not _truthful(x):
-                fails.append(Fail(f'C03:{op}:truthful', f'{hist}: {mm}'))
+                fails.append(Fail(f'C03:{kop}:truthful', f'{hist}: {mm}'))
     return fails
 
 
@@ -371,7 +508,11 @@ if __name__ == '__main__':
               'slices incl. empty/stepped/reversed, masks incl. all-false and wrong length, select, region, index vector, '
               'joins, sort, T, copy, math, aggregate, window) and 21 in-place updates (cell, row, column, region, attribute '
               'and indexed-attribute assignment with right/wrong lengths, rename to a repeated name, live column write) '
-              'applied to any live table; invariants I1-I3 on every live table after every step + plain-list cell '
+              'applied to any live table; late alphabet (1-step: all roots; 2-step quick: 10 representatives on the newest table as last '
+              'step; thorough: everywhere): 14 `<<` rows with falsy / empty cells (\'\' b\'\' None 0 0.0 False [] (), alone and mixed, '
+              'tuple and generator rows) and 18 attribute / indexed-attribute assignments of unsized iterables (generator, map, zip, '
+              'iter) of right and wrong length; every wrong-length attribute assignment (sized or unsized) must raise and leave the '
+              'table unchanged, an unsized right-length value must be accepted; invariants I1-I3 on every live table after every step + plain-list cell '
               'expectations for the structural operations. distinct = distinct (root, op-name sequence)',
          bound=lambda tier: ({'max_steps': 2, 'roots_len1': len(ROOTS), 'roots_len2': len(QUICK_L2_ROOTS), 'max_shape': '3x3 roots'}
                              if tier == 'quick' else
